@@ -12,7 +12,7 @@ LEVEL = "exploration"
 RULE = (
     "Domains: (a) every matching on <=N positions exhaustively (N=9 quick, 11 thorough); (a') every chord diagram on k chords, once with "
     "an unpaired nucleotide between endpoints and once dense (zero-length hairpins, adjacent pairs), k=5 quick, 5-6 "
-    "thorough; (b) Hypothesis blow-ups "
+    "thorough; (b') long structures of 30-90 stems (up to ~3000 nt) in a random nested arrangement with a few crossing chords; (b) Hypothesis blow-ups "
     "up to ~150 nt with multiloops, bulges, length-1 stems and pseudoknotted loops. Oracle (reference "
     "decomposition from the statement): stems == maximal stacked runs with mirrored strands (own stem finder); "
     "hairpins == exactly the pairs enclosing only unpaired nucleotides; each loop has >=2 strands, consecutive "
@@ -254,6 +254,8 @@ def plan(tier, seed):
                 specs.append({"kind": "chords", "k": k, "slice": sl, "of": shards, "spaced": spaced})
     for idx, (n, m) in enumerate(hyp):
         specs.append({"kind": "blowup", "examples": n, "max_abstract": m, "seed": seed * 1000 + idx})
+    for k in range(4 if tier == "quick" else 16):
+        specs.append({"kind": "large", "examples": 5 if tier == "quick" else 50, "seed": seed * 1000 + 700 + k})
     specs.append({"kind": "cli", "examples": 250 if tier == "quick" else 3000, "seed": seed * 1000 + 900})
     return specs
 
@@ -284,6 +286,10 @@ def run_shard(spec) -> ShardResult:
                 res.note_case(tj(case), nt, labs + [f"chord-diagram-k={spec['k']}-{'spaced' if spec['spaced'] else 'dense'}"], sample_cap=1)
                 check_case(PROP_ID, oracle, case, res, to_json=tj)
         res.exhaustive = True
+    elif spec["kind"] == "large":
+        run_hypothesis(PROP_ID, ssref.st_large_structures(max_pairs=90), oracle, seed=spec["seed"], max_examples=spec["examples"],
+                       result=res, to_json=tj, classify=lambda c: (classify(c)[0], classify(c)[1] + ["large"]), sample_cap=0, shrink=False)
+        res.exhaustive = False
     elif spec["kind"] == "blowup":
         run_hypothesis(PROP_ID, ssref.st_structures(max_abstract=spec["max_abstract"]), oracle, seed=spec["seed"],
                        max_examples=spec["examples"], result=res, to_json=tj, classify=classify)
